@@ -37,6 +37,17 @@ func (pubLookalike) Put(in string)    {}
 
 type pubPartial struct{}
 
+// structs handed over BY VALUE whose methods are declared on the pointer receiver: the value does not
+// implement the interface (only its address would)
+type synthPtrOnly struct{ n int }
+
+func (*synthPtrOnly) mark() {}
+
+type pubPtrOnly struct{ n int }
+
+func (*pubPtrOnly) Get(ctx context.Context, in *Msg) (*Msg, error) { return in, nil }
+func (*pubPtrOnly) Put(in *Msg) error                              { return nil }
+
 func (pubPartial) Get(ctx context.Context, in *Msg) (*Msg, error) { return in, nil }
 
 type regCarrier interface {
@@ -70,7 +81,7 @@ func suiteC15(r *Run) {
 	// a refused registration leaves no trace: afterwards the name can still be registered properly, and (HTTP) its
 	// method paths are not routed
 	for _, carrier := range []string{"handlermap", "inproc", "http"} {
-		for variant := 0; variant < 2; variant++ {
+		for variant := 0; variant < 3; variant++ {
 			var reg regCarrier
 			var hsrv *httpgrpc.Server
 			switch carrier {
@@ -90,6 +101,9 @@ func suiteC15(r *Run) {
 				}})
 			}
 			var bad interface{} = notImpl{}
+			if variant == 2 {
+				bad = synthPtrOnly{}
+			}
 			if variant == 1 {
 				// refused as a duplicate: the second description has one more method
 				reg.RegisterService(d, synthImpl{})
@@ -101,7 +115,7 @@ func suiteC15(r *Run) {
 			}
 			pan := ""
 			func() { defer recoverTo(&pan); reg.RegisterService(&d2, bad) }()
-			c := map[string]interface{}{"carrier": carrier, "history": map[int]string{0: "ill-typed registration, then a valid one of the same name", 1: "registration, then a duplicate with an extra method"}[variant]}
+			c := map[string]interface{}{"carrier": carrier, "history": map[int]string{0: "ill-typed registration, then a valid one of the same name", 1: "registration, then a duplicate with an extra method", 2: "registration of a struct value whose methods are on the pointer receiver (ill-typed), then a valid one of the same name"}[variant]}
 			r.Eval(fmt.Sprint("refused-leaves-no-trace", carrier, variant), true)
 			r.Count("directed:refused-registration")
 			if pan == "" {
@@ -119,7 +133,7 @@ func suiteC15(r *Run) {
 					r.Violate("registry/http/refused-registration-left-routes", "a refused registration leaves the registry as it was", sprintf("after the refused registration POST %s is answered %d (want 404)", path, rec.Code), c, fmt.Sprint(rec.Code))
 				}
 			}
-			if variant == 0 {
+			if variant != 1 {
 				pan2 := ""
 				func() { defer recoverTo(&pan2); reg.RegisterService(d, synthImpl{}) }()
 				if pan2 != "" {
@@ -162,9 +176,14 @@ func suiteC15(r *Run) {
 					h = pubImpl{}
 				}
 				if !typeOK {
-					h = []interface{}{notImpl{}, pubLookalike{}, pubPartial{}, synthImpl{}}[rng.Intn(4)]
+					h = []interface{}{notImpl{}, pubLookalike{}, pubPartial{}, synthImpl{}, synthPtrOnly{}, pubPtrOnly{}}[rng.Intn(6)]
 					if _, isSynth := h.(synthImpl); isSynth && d.HandlerType != (*pubHandler)(nil) {
 						h = notImpl{}
+					}
+					if _, ok := h.(synthPtrOnly); ok && d.HandlerType == (*pubHandler)(nil) {
+						h = pubPtrOnly{}
+					} else if _, ok := h.(pubPtrOnly); ok && d.HandlerType != (*pubHandler)(nil) {
+						h = synthPtrOnly{}
 					}
 				}
 				pan := ""
